@@ -637,6 +637,7 @@ fn bank_info(w: &World, bank: Pubkey, mint: Pubkey, decimals: u8, oracle_kind: u
         decimals,
         oracle_kind,
         oracle_key,
+        oracle_extra: vec![],
         lv: bank_pda("liquidity_vault", &bank),
         lv_auth: bank_pda("liquidity_vault_auth", &bank),
         iv: bank_pda("insurance_vault", &bank),
